@@ -1,6 +1,6 @@
 """C16 world: pools of metamodels, load operations, structural dumps, observers of
-the state that survives between loads, and the fork server that supplies *fresh
-process states*.
+the state that survives between loads, and the server that supplies *fresh states*
+of textX.
 
 A case (JSON) is
   {"pool": [mmcfg…], "extras": [mmcfg…], "files": {name: text}, "histories": [[op…]…]}
@@ -11,18 +11,22 @@ A case (JSON) is
           k = metamodel slot: pool entries first, then the extras; an extra exists in a history only
           after its ["new", k]
 
-`run_case` (always executed in a process forked from the pristine server, which
-has imported textx and done nothing else) produces
+Fresh state: `fresh_textx()` removes textx and arpeggio from sys.modules and imports them again
+(~20 ms, compiled modules are kept in memory), so every module global, class and rule object of the code
+under test is new; user classes, processors and providers are rebuilt from the configuration.
+`run_case` produces
 
   runs[h].hist[i]  outcome of op i inside history h + the observable surviving state after it
-                   (every history runs in its own process, forked from the state "pool created")
-  r1[key]  outcome of the same load alone on the state "pool created, nothing loaded" (DESIGN.md Reading)
-  r2[key]  outcome of the same load in a process that created only that metamodel (statement, literally;
-           for pool metamodels: their first distinct load, for extras: every load)
-  mm_solo  outcome of creating each metamodel alone in a fresh process
+                   (every history starts from a fresh state in which the pool has been created)
+  r1[key]  outcome of the same load alone on a fresh state "pool created, nothing loaded" (DESIGN.md Reading)
+  r2[key]  outcome of the same load on a fresh state in which only its metamodel was created (statement,
+           literally; for pool metamodels: their first distinct load, for extras: every load)
+  r3[key]  (flagged cases) r2 once more in a really new interpreter (`--oneshot`): guards the harness's
+           notion of "fresh"
+  mm_solo  outcome of creating each metamodel alone on a fresh state
 
-each reference in its own forked process.  Nothing here knows about the Lean side
-except `pool_dump` / `lean_material`, which serialise the real parser models for the mirror.
+Nothing here knows about the Lean side except `pool_dump` / `lean_material`, which serialise the real
+parser models for the mirror.
 """
 import json
 import os
@@ -488,42 +492,8 @@ def tree_of(world, k, clone, ids):
 
 
 # ----------------------------------------------------------------------------
-# forked runs
+# cases
 # ----------------------------------------------------------------------------
-def forked(fn):
-    """Run fn() in a forked child, return its JSON-able result (or {"crash": …})."""
-    r, w = os.pipe()
-    pid = os.fork()
-    if pid == 0:
-        code = 0
-        try:
-            os.close(r)
-            try:
-                res = fn()
-            except BaseException as e:  # noqa: BLE001
-                res = {"crash": f"{type(e).__name__}: {e}", "tb": traceback.format_exc()[-1200:]}
-            data = json.dumps(res, default=str).encode()
-            with os.fdopen(w, "wb") as f:
-                f.write(data)
-        except BaseException:  # noqa: BLE001
-            code = 3
-        finally:
-            os._exit(code)
-    os.close(w)
-    chunks = []
-    with os.fdopen(r, "rb") as f:
-        while True:
-            b = f.read(1 << 16)
-            if not b:
-                break
-            chunks.append(b)
-    os.waitpid(pid, 0)
-    try:
-        return json.loads(b"".join(chunks).decode())
-    except Exception:  # noqa: BLE001
-        return {"crash": "no result from the forked run"}
-
-
 def op_key(op):
     return json.dumps(op, sort_keys=True)
 
@@ -632,8 +602,82 @@ def run_history(world, case, ops, lean, full):
     return res
 
 
+BASE_MODULES = None  # sys.modules before textx was imported for the first time
+
+
+def install_code_cache():
+    """Keep the compiled code of every module imported from now on in memory, so that importing textx /
+    arpeggio (and language plugins that import textx) afresh executes the module code again without
+    touching the file system.  Must be called before textx is imported for the first time."""
+    import importlib.abc
+    import importlib.machinery
+
+    global BASE_MODULES
+    BASE_MODULES = set(sys.modules)
+
+    class MemoLoader(importlib.machinery.SourceFileLoader):
+        codes = {}
+
+        def get_code(self, fullname):
+            c = MemoLoader.codes.get(fullname)
+            if c is None:
+                c = super().get_code(fullname)
+                MemoLoader.codes[fullname] = c
+            return c
+
+    class MemoFinder(importlib.abc.MetaPathFinder):
+        def find_spec(self, fullname, path, target=None):
+            spec = importlib.machinery.PathFinder.find_spec(fullname, path)
+            if spec is not None and type(spec.loader) is importlib.machinery.SourceFileLoader:
+                spec.loader = MemoLoader(spec.loader.name, spec.loader.path)
+            return spec
+
+    sys.meta_path.insert(0, MemoFinder())
+
+
+def _is_stdlib(mod):
+    import sysconfig
+
+    f = getattr(mod, "__file__", None)
+    if f is None:
+        return True  # builtin / frozen
+    std = sysconfig.get_paths()["stdlib"]
+    return f.startswith(std) and "site-packages" not in f
+
+
+def fresh_textx():
+    """A fresh state of the code under test inside this interpreter: textx, arpeggio and every other
+    non-stdlib module that was imported after them (language plugins found through entry points keep
+    references to textx classes) are removed from sys.modules and textx is imported again, so every
+    module global (textX_parsers, the base-type rule objects, the language registry, …), every class and
+    everything reachable from them is new.  (All state of the code under test lives there; a sample of the
+    references is cross-checked in really new interpreters, see `r3`.)"""
+    for name in [m for m in sys.modules if m not in BASE_MODULES]:
+        mod = sys.modules.get(name)
+        if mod is not None and not _is_stdlib(mod):
+            del sys.modules[name]
+    import textx  # noqa: F401
+    import textx.export  # noqa: F401
+    import textx.scoping.providers  # noqa: F401
+
+
+def fresh_world(case, tmp, slots):
+    fresh_textx()
+    w = new_world(case, tmp)
+    for k in slots:
+        create_slot(w, k)
+    return w
+
+
 def run_case(case, tmp, lean=True):
     os.chdir(tmp)  # metamodels with debug=True write .dot files into the current directory
+    try:
+        return _run_case(case, tmp, lean)
+    finally:
+        os.chdir("/")
+
+
+def _run_case(case, tmp, lean):
     res = {}
     npool = len(case["pool"])
     distinct, seen = [], set()
@@ -643,76 +687,122 @@ def run_case(case, tmp, lean=True):
                 seen.add(op_key(op))
                 distinct.append(op)
 
-    # --- r2: a process that creates only the metamodel of the load ------------------------
+    # --- r2: a fresh state in which only the metamodel of the load is created ----------------
     # (pool metamodels: the first distinct load of each; metamodels created inside a history: every load)
-    def solo(k, ops):
-        def f():
-            w = new_world(case, tmp)
-            create_slot(w, k)
-            out = {"__mm__": w.mm_errs[k]}
-            if len(ops) == 1:
-                out[op_key(ops[0])] = run_op(w, ops[0])[0]
-            else:
-                for op in ops:
-                    out[op_key(op)] = forked(lambda op=op: run_op(w, op)[0])
-            return out
-        return f
-
     r2, mm_solo = {}, {}
     for k in sorted({op[1] for op in distinct}):
         mine = [op for op in distinct if op[1] == k]
-        got = forked(solo(k, mine[:1] if k < npool else mine))
-        if "crash" in got:
-            res["crash"] = got
-            return res
-        mm_solo[str(k)] = got.pop("__mm__", None)
-        r2.update(got)
+        for op in (mine[:1] if k < npool else mine):
+            w = fresh_world(case, tmp, [k])
+            mm_solo[str(k)] = w.mm_errs[k]
+            r2[op_key(op)] = run_op(w, op)[0]
     res["r2"], res["mm_solo"] = r2, mm_solo
 
-    # --- pool; r1: each load on the state "pool created, nothing loaded" ------------------
-    world = new_world(case, tmp)
-    for k in range(npool):
-        create_slot(world, k)
-    res["pool"] = list(world.mm_errs[:npool])
-    res["hid0"] = observe(world)
+    # --- r1: each load alone on the state "pool created, nothing loaded" ----------------------
     r1 = {}
     for op in distinct:
         if op[1] < npool:
-            r1[op_key(op)] = forked(lambda op=op: run_op(world, op)[0])
+            w = fresh_world(case, tmp, range(npool))
+            r1[op_key(op)] = run_op(w, op)[0]
     res["r1"] = r1
 
-    # --- the histories, each from the state "pool created, nothing loaded" ----------------
-    res["runs"] = [forked(lambda ops=ops, i=i: run_history(world, case, ops, lean, i == 0))
-                   for i, ops in enumerate(case["histories"])]
+    # --- the histories, each from the state "pool created, nothing loaded" --------------------
+    runs = []
+    for i, ops in enumerate(case["histories"]):
+        w = fresh_world(case, tmp, range(npool))
+        if i == 0:
+            res["pool"] = list(w.mm_errs[:npool])
+            res["hid0"] = observe(w)
+        try:
+            runs.append(run_history(w, case, ops, lean, i == 0))
+        except Exception as e:  # noqa: BLE001 - a bug of this harness, kept visible
+            runs.append({"crash": f"{type(e).__name__}: {e}", "tb": traceback.format_exc()[-1200:]})
+    res["runs"] = runs
+
+    # --- r3: a sample of the references once more, in really fresh interpreters ---------------
+    if case.get("check_fresh_interpreter"):
+        r3 = {}
+        for k in sorted({op[1] for op in distinct})[:2]:
+            op = [o for o in distinct if o[1] == k][0]
+            r3[op_key(op)] = oneshot(case, tmp, op)
+        res["r3"] = r3
+    import gc
+
+    gc.collect()
     return res
 
 
-def serve():
-    """Fork server: stays pristine (textx imported, nothing created); one request per line."""
-    repo = os.environ.get("VERIF_REPO", "/repo")
-    sys.path.insert(0, repo)
-    here = os.path.dirname(os.path.dirname(os.path.abspath(__file__)))
-    if here not in sys.path:
-        sys.path.insert(1, here)
-    import textx  # noqa: F401
-    import textx.scoping.providers  # noqa: F401
-    import textx.export  # noqa: F401
-    from harness import peg  # noqa: F401
+def oneshot(case, tmp, op):
+    """the load `op` in a new interpreter that creates only its metamodel"""
+    import subprocess
 
+    req = json.dumps({"case": {"pool": case["pool"], "extras": case.get("extras") or [], "files": {}, "histories": []},
+                      "tmp": tmp, "op": op})
+    try:
+        p = subprocess.run([sys.executable, "-m", "harness.c16_world", "--oneshot"], input=req, capture_output=True,
+                           text=True, timeout=120, cwd=HERE, env=dict(os.environ, PYTHONDONTWRITEBYTECODE="1"))
+        return json.loads(p.stdout.strip().splitlines()[-1])
+    except Exception as e:  # noqa: BLE001
+        return {"crash": f"{type(e).__name__}: {e}"[:200]}
+
+
+HERE = os.path.dirname(os.path.dirname(os.path.abspath(__file__)))
+
+
+def _paths():
+    repo = os.environ.get("VERIF_REPO", "/repo")
+    if repo not in sys.path[:1]:
+        sys.path.insert(0, repo)
+    if HERE not in sys.path:
+        sys.path.insert(1, HERE)
+
+
+def serve():
+    """Server: one request (case) per line, one answer per line.  textX is imported afresh for every
+    reference and every history (`fresh_textx`); the compiled modules are kept in memory so that a fresh
+    import costs ~20 ms."""
+    _paths()
+    install_code_cache()
     sys.setrecursionlimit(3000)
     out = sys.stdout
-    devnull = open(os.devnull, "w")
-    sys.stdout = devnull  # the code under test may print
-    for line in sys.stdin:
-        line = line.strip()
-        if not line:
-            continue
-        req = json.loads(line)
-        ans = forked(lambda: run_case(req["case"], req["tmp"], req.get("lean", True)))
-        ans["textx"] = os.path.dirname(textx.__file__)
-        out.write(json.dumps(ans, default=str) + "\n")
-        out.flush()
+    sys.stdout = open(os.devnull, "w")  # the code under test may print (debug=True)
+    try:
+        import textx
+
+        where = os.path.dirname(textx.__file__)
+        for line in sys.stdin:
+            line = line.strip()
+            if not line:
+                continue
+            req = json.loads(line)
+            try:
+                ans = run_case(req["case"], req["tmp"], req.get("lean", True))
+            except Exception as e:  # noqa: BLE001
+                ans = {"crash": f"{type(e).__name__}: {e}", "tb": traceback.format_exc()[-1500:]}
+            ans["textx"] = where
+            out.write(json.dumps(ans, default=str) + "\n")
+            out.flush()
+    finally:
+        pass
+
+
+def serve_oneshot():
+    _paths()
+    req = json.loads(sys.stdin.read())
+    out = sys.stdout
+    sys.stdout = open(os.devnull, "w")
+    os.chdir(req["tmp"])
+    import textx  # noqa: F401
+
+    w = new_world(req["case"], req["tmp"])
+    create_slot(w, req["op"][1])
+    res = run_op(w, req["op"])[0]
+    out.write(json.dumps(res, default=str) + "\n")
+    out.flush()
 
 
 if __name__ == "__main__":
-    serve()
+    if "--oneshot" in sys.argv:
+        serve_oneshot()
+    else:
+        serve()
